@@ -1,6 +1,6 @@
 /-
   `L1MinusL2Norm.prox` (Lou & Yan 2018): the four-branch formula of the code is a global minimiser of
-  `F(x) = lam(‖x‖₁ - beta‖x‖₂) + ½‖x - v‖²` for every `beta ≥ 0`, every `v ≠ 0` (and `v = 0` when `beta ≤ 1`).
+  `F(x) = lam(‖x‖₁ - beta‖x‖₂) + ½‖x - v‖²` for every `beta ≥ 0` and every `v` (incl. `v = 0`, code after fix cda1690).
 
   Proof idea (direct, no first-order conditions): write `ρ = ‖x‖₂`.
   * if `|v_i| ≤ μ ≤ lam` for all `i` :  `lam‖x‖₁ - ⟪x,v⟫ ≥ (lam-μ)‖x‖₁ ≥ (lam-μ)ρ`, so
@@ -208,8 +208,7 @@ theorem inner_onesparse (k : Fin n) (a : ℝ) (v : EuclideanSpace ℝ (Fin n)) :
   · intro h; exact absurd (Finset.mem_univ k) h
 
 /-- **main theorem** -/
-theorem l1l2_min {lam beta : ℝ} (hlam : 0 < lam) (hb : 0 ≤ beta) (v : Fin n → ℝ)
-    (hreg : (∃ i, v i ≠ 0) ∨ beta ≤ 1) :
+theorem l1l2_min {lam beta : ℝ} (hlam : 0 < lam) (hb : 0 ≤ beta) (v : Fin n → ℝ) :
     IsGMin Set.univ (l1l2Fn beta) lam (toE v) (toE (l1l2Prox beta v lam)) := by
   refine ⟨trivial, fun x _ => ?_⟩
   set va : Fin n → ℝ := fun i => |v i| with hva
@@ -225,7 +224,7 @@ theorem l1l2_min {lam beta : ℝ} (hlam : 0 < lam) (hb : 0 ≤ beta) (v : Fin n 
         else match argmaxFirst va with
           | none => fun _ => 0
           | some k => fun i => if i = k then (va k + (beta - 1) * lam) * sign (v k) else 0
-      else fun _ => 0 := rfl
+      else fun i => if i.val = 0 then maxP (beta - 1) 0 * lam else 0 := rfl
   rw [hmodel]
   have hzero : lam * l1l2Fn beta (toE (fun _ : Fin n => (0 : ℝ))) + 1 / 2 * ‖toE (fun _ : Fin n => (0 : ℝ)) - toE v‖ ^ 2
       = 1 / 2 * ‖toE v‖ ^ 2 := by
@@ -361,38 +360,40 @@ theorem l1l2_min {lam beta : ℝ} (hlam : 0 < lam) (hb : 0 ≤ beta) (v : Fin n 
           rw [this, hm]; ring
         rw [hval]
         nlinarith [sq_nonneg (‖x‖ - m)]
-  · -- v = 0
-    rw [if_neg h0, hzero]
+  · -- v = 0 : one-sparse vector of magnitude max(beta-1,0)·lam in entry 0
+    rw [if_neg h0]
     have hμz : μ = 0 := le_antisymm (not_lt.mp h0) hμ0
-    have hb1 : beta ≤ 1 := by
-      rcases hreg with ⟨i, hi⟩ | h
-      · exfalso
-        have := vmax_ge va i
-        rw [← hμdef, hμz] at this
-        simp only [hva] at this
-        exact hi (abs_eq_zero.mp (le_antisymm this (abs_nonneg _)))
-      · exact h
+    have hv0 : toE v = 0 := by
+      ext i
+      have := hμ_ge i
+      rw [hμz] at this
+      exact abs_eq_zero.mp (le_antisymm this (abs_nonneg _))
     have hlow := lower_small (lam := lam) (beta := beta) (μ := μ) (by rw [hμz]; exact hlam.le) x (toE v) hμ_ge
-    rw [hμz] at hlow
-    have : 0 ≤ ‖x‖ * ((1 - beta) * lam) := mul_nonneg (norm_nonneg x) (mul_nonneg (by linarith) hlam.le)
-    nlinarith [sq_nonneg ‖x‖]
-
-/-- the excluded corner is a real failure: `v = 0`, `beta = 2`, `lam = 1`, `n = 1` -/
-theorem l1l2_zero_not_min :
-    ¬ IsGMin Set.univ (l1l2Fn 2) (1 : ℝ) (toE (fun _ : Fin 1 => (0 : ℝ))) (toE (l1l2Prox 2 (fun _ : Fin 1 => (0 : ℝ)) 1)) := by
-  intro h
-  have hp : l1l2Prox 2 (fun _ : Fin 1 => (0 : ℝ)) 1 = fun _ => 0 := by
-    unfold l1l2Prox
-    have : vmax (fun _ : Fin 1 => HasAbs.abs (0 : ℝ)) = 0 := by
-      simp [vmax, maxP]
-    simp only [this, lt_irrefl, if_false]
-  rw [hp] at h
-  have := h.2 (toE (fun _ : Fin 1 => (1 : ℝ))) trivial
-  have z : toE (fun _ : Fin 1 => (0 : ℝ)) = 0 := rfl
-  rw [z, obj_expand, obj_expand] at this
-  have n1 : ‖toE (fun _ : Fin 1 => (1 : ℝ))‖ = 1 := by rw [norm_toE]; simp
-  rw [n1] at this
-  simp at this
-  norm_num at this
+    rw [hμz, hv0, norm_zero, sub_zero] at hlow
+    rw [hv0]
+    set a := maxP (beta - 1) 0 * lam with ha
+    have ha' : a = max (beta - 1) 0 * lam := by rw [ha, maxP_eq]
+    have ha0 : 0 ≤ a := by rw [ha']; exact mul_nonneg (le_max_right _ _) hlam.le
+    rcases Nat.eq_zero_or_pos n with hn | hn
+    · -- no entries: every vector is 0
+      subst hn
+      have hx : x = 0 := by ext i; exact i.elim0
+      have hp : toE (fun i : Fin 0 => if i.val = 0 then a else 0) = 0 := by ext i; exact i.elim0
+      rw [hp, hx]
+    · set k : Fin n := ⟨0, hn⟩ with hk
+      have hp : (fun i : Fin n => if i.val = 0 then a else 0) = fun i => if i = k then a else 0 := by
+        funext i
+        have : (i.val = 0) = (i = k) := by rw [hk]; exact propext ⟨fun h => Fin.ext h, fun h => by rw [h]⟩
+        simp only [this]
+      rw [hp, obj_expand, norm_onesparse, l1_onesparse, inner_onesparse, abs_of_nonneg ha0]
+      simp only [PiLp.zero_apply, mul_zero, norm_zero, sub_zero]
+      rcases le_total (beta - 1) 0 with hb1 | hb1
+      · have : a = 0 := by rw [ha', max_eq_right hb1, zero_mul]
+        rw [this]
+        have : 0 ≤ ‖x‖ * ((1 - beta) * lam) := mul_nonneg (norm_nonneg x) (mul_nonneg (by linarith) hlam.le)
+        nlinarith [sq_nonneg ‖x‖]
+      · have : a = (beta - 1) * lam := by rw [ha', max_eq_left hb1]
+        rw [this]
+        nlinarith [sq_nonneg (‖x‖ - (beta - 1) * lam)]
 
 end Scico.ProxL1L2
